@@ -515,12 +515,14 @@ def diff(a, b):
     return '-%s +%s' % ([x for x in a if x not in b][:4], [x for x in b if x not in a][:4])
 
 
-def classify(v, op, out, k, kind, n_clean, clean_out, probs):
+def classify(v, op, out, k, kind, n_clean, clean_out, probs, after=None):
     """stable key of the failure mechanism (from the case, not from the damage)"""
     name = op[0]
     cname = v.order[op[1]]
     inh = bool(CLS[cname].get('parent'))
     if name == 'destroy':
+        if after is not None and not any(c == op[1] and i == op[2] for c, i, _ in after['T']):
+            return 'C06:unexpected:destroy-raised-%s-but-victim-row-deleted' % out
         if inh:
             return K_INH_DESTROY
         if k is None:
@@ -670,6 +672,7 @@ def random_case(ctx, vi):
     for i in range(1, nA + 1):
         hist.append(mk_create(v, 'A', n=i, u=rng.choice([None, i]), m=rng.choice([None, i])))
     ids = {'A': list(range(1, nA + 1))}
+    forgot = set()
     nF = rng.randint(0, 2)
     for i in range(1, nF + 1):
         hist.append(mk_create(v, 'F', v=i))
@@ -692,6 +695,7 @@ def random_case(ctx, vi):
             ids[dep].append(i)
             if rng.random() < 0.3:
                 hist.append(['forget', ix[dep], i])
+                forgot.add((dep, i))
     ids['E'] = []
     for b in ids['B']:
         if rng.random() < 0.5:
@@ -757,8 +761,8 @@ def random_case(ctx, vi):
         op = ['destroy', ix['A'], rng.choice(ids['A'])]
     elif ids['Chi']:
         op = ['destroy', ix['Chi'], rng.choice(ids['Chi'])]
-    elif ids['B']:
-        op = ['destroy', ix['B'], rng.choice(ids['B'])]
+    elif [b for b in ids['B'] if ('B', b) not in forgot]:
+        op = ['destroy', ix['B'], rng.choice([b for b in ids['B'] if ('B', b) not in forgot])]
     else:
         op = ['destroy', ix['A'], rng.choice(ids['A'])]
     return hist, op
@@ -793,7 +797,7 @@ def run(ctx):
     for vi in range(len(ORDERS)):
         for name, hist, op in directed(vi):
             cases.append(('directed:' + name, vi, hist, op))
-    nrand = ctx.budget(130, 4000)
+    nrand = ctx.budget(900, 12000)
     for i in range(nrand):
         vi = i % len(ORDERS)
         hist, op = random_case(ctx, vi)
@@ -824,7 +828,7 @@ def run(ctx):
                      sample={'case': desc, 'outcome': t['out'], 'statements': len(t['log'])},
                      kind='%s/%s%s' % (op[0], t['out'], '' if t['k'] is None else '/inj'))
             if probs:
-                key = classify(v, op, t['out'], t['k'], t['kind'], t['n'], t['clean_out'], probs)
+                key = classify(v, op, t['out'], t['k'], t['kind'], t['n'], t['clean_out'], probs, env.dump())
                 if key not in seen_keys or key.startswith('C06:unexpected'):
                     seen_keys.add(key)
                     ctx.oracle_fail(key, '%s raised %s%s but: %s'
